@@ -1840,6 +1840,10 @@ class mulgrid(object):
             if fix:
                 for c in ec: self.delete_connection(c)
                 if not silent: print('Extra connections fixed.')
+        if fix and (len(mc) > 0 or len(ec) > 0):
+            # connections were added or deleted: keep the block
+            # connection name list and index in step with them
+            self.setup_block_connection_name_index()
         orphans = self.orphans
         if len(orphans) > 0:
             ok = False
